@@ -67,11 +67,17 @@ struct Case {
     mult: Vec<u8>, // n*n, mult[a*n+b] = number of edges a -> b
     out: usize,
     cont: u8, // 0 Graph, 1 StableGraph, 2.. StableGraph with vacancies (pattern cont-2)
+    /// the order in which the edges are added (parallel edges need not be adjacent); None: sorted
+    order: Option<Vec<(usize, usize)>>,
 }
 
 impl Case {
     fn to_json(&self) -> Value {
-        json!({"sys":"graph","n":self.n,"mult":self.mult,"out":self.out,"cont":self.cont})
+        let mut v = json!({"sys":"graph","n":self.n,"mult":self.mult,"out":self.out,"cont":self.cont});
+        if let Some(o) = &self.order {
+            v["order"] = json!(o.iter().map(|&(a, b)| vec![a, b]).collect::<Vec<_>>());
+        }
+        v
     }
     fn from_json(v: &Value) -> Option<Case> {
         Some(Case {
@@ -79,9 +85,13 @@ impl Case {
             mult: v["mult"].as_array()?.iter().map(|x| x.as_u64().map(|y| y as u8)).collect::<Option<Vec<_>>>()?,
             out: v["out"].as_u64()? as usize,
             cont: v["cont"].as_u64()? as u8,
+            order: v["order"].as_array().map(|a| a.iter().filter_map(|e| Some((e[0].as_u64()? as usize, e[1].as_u64()? as usize))).collect()),
         })
     }
     fn edges(&self) -> Vec<(usize, usize)> {
+        if let Some(o) = &self.order {
+            return o.clone();
+        }
         let mut e = Vec::new();
         for a in 0..self.n {
             for b in 0..self.n {
@@ -394,7 +404,7 @@ fn big_case(fam: usize, n: usize, out: usize, cont: u8) -> Case {
     for (a, b) in e {
         m[a * n + b] = (m[a * n + b] + 1).min(2);
     }
-    Case { n, mult: m, out, cont }
+    Case { n, mult: m, out, cont, order: None }
 }
 fn run_big(fam: usize, n: usize, out: usize, cont: u8) -> Option<Bad> {
     let c = big_case(fam, n, out, cont);
@@ -568,9 +578,10 @@ fn main() {
         let hist: Vec<Case> = v["history"].as_array().map(|a| a.iter().filter_map(Case::from_json).collect()).unwrap_or_default();
         ctx.finish_replay(run_with_history(&hist, &c));
     }
-    ctx.rule("every directed multigraph on n<=3 nodes with multiplicity 0..2 per ordered pair (self pairs included), every digraph with loops on 4 nodes (thorough: every loop-free digraph on 5 nodes) x every output node x container in {Graph, StableGraph, StableGraph with vacancies before/between/after/all (dummy nodes wired in and removed)} x 2 consecutive process calls (60 for the scale-probe graphs) on a processor reused across a whole chunk of the enumeration (256 graphs x outputs x containers; a violation's replay artefact carries the shortest suffix of that history with which it reproduces on a fresh processor); instrumented nodes log (node, call, own buffer ptr, per input ptr/len/value/call#); oracle: independent reverse reachability, multiset of in-edges by buffer identity, no self-alias, topological order and functional evaluation when the upstream subgraph is acyclic, sources()/sinks() == existing nodes without in/out edges; plus scale probes: nodes with 0, 1, 2, 255, 256, 257 and 1000 output buffers in every combination on a 3-node graph; 12 structured families (chains, stars, rings, complete DAG / digraph, tree, double edges, ...) on 5..=9 nodes; 8 structured families (chain, reversed chain, stars, ring, binary tree, bidirectional chain, chain with a fan-out from node 0) on 33, 64, 255, 256, 257 nodes (thorough: also 31, 32, 100, 300) x output node in {0, 1, n/2, n-2, n-1} x {Graph, StableGraph}, 60 calls each; chains and stars on 65535, 65536, 65537 nodes (Graph, and a StableGraph chain with its first slot vacant) under a linear-time form of the same oracle, 2 calls each; non-trivial = at least one edge, distinct by (graph, output, container)");
+    ctx.rule("every directed multigraph on n<=3 nodes with multiplicity 0..2 per ordered pair (self pairs included), every digraph with loops on 4 nodes (thorough: every loop-free digraph on 5 nodes) ; every edge insertion order (sequences of up to 6 / 5 / 4 edges over all ordered pairs of 2 / 3 / 4 nodes, parallel edges need not be adjacent) x every output node x container in {Graph, StableGraph, StableGraph with vacancies before/between/after/all (dummy nodes wired in and removed)} x 2 consecutive process calls (60 for the scale-probe graphs) on a processor reused across a whole chunk of the enumeration (256 graphs x outputs x containers; a violation's replay artefact carries the shortest suffix of that history with which it reproduces on a fresh processor); instrumented nodes log (node, call, own buffer ptr, per input ptr/len/value/call#); oracle: independent reverse reachability, multiset of in-edges by buffer identity, no self-alias, topological order and functional evaluation when the upstream subgraph is acyclic, sources()/sinks() == existing nodes without in/out edges; plus scale probes: nodes with 0, 1, 2, 255, 256, 257 and 1000 output buffers in every combination on a 3-node graph; 12 structured families (chains, stars, rings, complete DAG / digraph, tree, double edges, ...) on 5..=9 nodes; 8 structured families (chain, reversed chain, stars, ring, binary tree, bidirectional chain, chain with a fan-out from node 0) on 33, 64, 255, 256, 257 nodes (thorough: also 31, 32, 100, 300) x output node in {0, 1, n/2, n-2, n-1} x {Graph, StableGraph}, 60 calls each; chains and stars on 65535, 65536, 65537 nodes (Graph, and a StableGraph chain with its first slot vacant) under a linear-time form of the same oracle, 2 calls each; non-trivial = at least one edge, distinct by (graph, output, container)");
     // enumerate
-    let mut graphs: Vec<(usize, Vec<u8>)> = Vec::new();
+    // (node count, multiplicity matrix, explicit edge insertion order if any)
+    let mut graphs: Vec<(usize, Vec<u8>, Option<Vec<(usize, usize)>>)> = Vec::new();
     for n in 1..=3usize {
         for code in 0..3usize.pow((n * n) as u32) {
             let mut m = Vec::with_capacity(n * n);
@@ -579,11 +590,11 @@ fn main() {
                 m.push((x % 3) as u8);
                 x /= 3;
             }
-            graphs.push((n, m));
+            graphs.push((n, m, None));
         }
     }
     for code in 0..(1u32 << 16) {
-        graphs.push((4, (0..16).map(|b| ((code >> b) & 1) as u8).collect()));
+        graphs.push((4, (0..16).map(|b| ((code >> b) & 1) as u8).collect(), None));
     }
     if ctx.thorough() {
         for code in 0..(1u32 << 20) {
@@ -597,7 +608,7 @@ fn main() {
                     }
                 }
             }
-            graphs.push((5, m));
+            graphs.push((5, m, None));
         }
     }
     // scale probes: structured families on 5..=9 nodes (not exhaustive over shapes; every output node,
@@ -622,10 +633,32 @@ fn main() {
             for (a, b) in e {
                 m[a * n + b] = (m[a * n + b] + 1).min(2);
             }
-            graphs.push((n, m));
+            graphs.push((n, m, None));
             fam_count += 1;
         }
     }
+    // edge insertion order: every sequence of up to 5 edges over the 9 ordered pairs of 3 nodes (and up
+    // to 4 edges on 4 nodes), so that parallel edges need not be adjacent in the adjacency lists
+    let mut seq_count = 0usize;
+    for (n, maxlen) in [(2usize, 6usize), (3, 5), (4, 4)] {
+        let pairs: Vec<(usize, usize)> = (0..n).flat_map(|a| (0..n).map(move |b| (a, b))).collect();
+        for len in 2..=maxlen {
+            for code in 0..pairs.len().pow(len as u32) {
+                let seq: Vec<(usize, usize)> = (0..len).map(|j| pairs[(code / pairs.len().pow(j as u32)) % pairs.len()]).collect();
+                // only sequences that are not already in sorted order (those are the multigraphs above)
+                if seq.windows(2).all(|w| w[0] <= w[1]) {
+                    continue;
+                }
+                let mut m = vec![0u8; n * n];
+                for &(a, b) in &seq {
+                    m[a * n + b] += 1;
+                }
+                graphs.push((n, m, Some(seq)));
+                seq_count += 1;
+            }
+        }
+    }
+    ctx.set("edge_order_sequences", json!(seq_count));
     ctx.set("scale_probe_graphs", json!(fam_count));
     ctx.set("graphs", json!(graphs.len()));
     let evals = AtomicU64::new(0);
@@ -637,11 +670,11 @@ fn main() {
         let mut p2 = Processor::<G2>::with_capacity(8);
         let mut fps = Vec::new();
         let mut hist: Vec<Case> = Vec::new(); // what this chunk's processors have processed so far
-        for (n, m) in chunk {
+        for (n, m, order) in chunk {
             let nv = 2 + vacancy_patterns(*n).len() as u8;
             for out in 0..*n {
                 for cont in 0..nv {
-                    let c = Case { n: *n, mult: m.clone(), out, cont };
+                    let c = Case { n: *n, mult: m.clone(), out, cont, order: order.clone() };
                     let cj = c.to_json();
                     let _guard_scope = guard::scoped(&cj.to_string());
                     evals.fetch_add(1, Relaxed);
